@@ -875,6 +875,11 @@ func runFrame(fr *frame) {
 				buf := make([]byte, 4096)
 				buf = buf[:runtime.Stack(buf, false)]
 				p = engineBug("type assertion in engine: " + ta.Error() + " at " + fr.pos() + "\n" + string(buf))
+				if os.Getenv("VERIF_STACK") != "" {
+					for f := fr; f != nil; f = f.caller {
+						fmt.Fprintf(os.Stderr, "  stack: %s\n", f.pos())
+					}
+				}
 			}
 			panic(p)
 		}
